@@ -136,7 +136,7 @@ def _oracle_soh_pass(run, hist, multi):
                     held[tid].remove(int(c["f"][2]))
                 exp, ids, calls = _ref(objs, tags, c["f"])
                 c["exp"], c["calls"] = exp, calls
-                held.setdefault(tid, []).extend(ids)
+                # (the references a caller holds are taken from what the call ACTUALLY returned, at its return)
         elif k in ("mul", "sul"):
             if (k == "mul" and owner != tid) or (k == "sul" and tid not in shared):
                 return "thread %d released mapLock it does not hold" % tid
@@ -147,8 +147,12 @@ def _oracle_soh_pass(run, hist, multi):
             cur[tid]["unlocks"] += 1
         elif k == "pcl":
             c = cur.get(tid)
-            if c is None or (owner != tid and tid not in shared):
-                return "predicate invoked by %d outside its critical section" % tid
+            if c is None:
+                return "predicate invoked by %d outside any call" % tid
+            if owner != tid and tid not in shared:
+                # user code running outside the lock is not by itself a failure of "behaves as an atomic map": the call then
+                # consists of several steps and its results are judged by the linearisability search
+                multi.append("%s invoked the predicate outside its critical section" % " ".join(c["f"]))
             c["seen"].append(int(t[1]))
         elif k in ("ret", "exc"):
             c = cur.pop(tid, None)
@@ -171,12 +175,13 @@ def _oracle_soh_pass(run, hist, multi):
             if got != c["exp"]:
                 soft.append("%s returned %s, the reference map model gives %s" % (what, got, c["exp"]))
             elif c["seen"] != c["calls"] and c["locks"] == 1:
-                return "%s invoked the predicate on %s, key-order scan gives %s" % (what, c["seen"], c["calls"])
+                soft.append("%s invoked the predicate on %s, key-order scan gives %s" % (what, c["seen"], c["calls"]))
             if k == "ret" and t[3] not in ("true", "false", "()", "null"):
                 ids = [int(x) for x in t[3].strip("[]").split(",") if x]
                 for i in ids:
                     if i in dead:
                         return "%s returned object %d, which was already destroyed" % (what, i)
+                held.setdefault(tid, []).extend(ids)
         elif k == "rel":
             i = int(t[1])
             if i in dead:
@@ -205,7 +210,8 @@ def _oracle_soh_pass(run, hist, multi):
                         del objs[n]
                         tags.pop(n, None)
                 else:
-                    return "object %d destroyed while still stored in the holder" % i
+                    # relative to the reference order of the calls: decided with the results when some call has several steps
+                    soft.append("object %d destroyed while still stored in the holder" % i)
             for u, l in held.items():
                 if i in l:
                     return "object %d destroyed while thread %d holds a reference to it" % (i, u)
